@@ -352,3 +352,32 @@ func TestC04_Exhaustive(t *testing.T) {
 		}
 	})
 }
+
+// The deposit path that relies on the proof verification: position and proof
+// mutations only, decided by the deposit oracle (shared with C03).
+func TestC04_DepositSlice(t *testing.T) {
+	posMuts := []int{mutProofTrunc, mutProofExtend, mutProofSwap, mutProofBitFlip, mutPosNeighbour, mutPosAlias, mutPosRandom, mutDupMirror}
+	RunProp(t, Prop[DepositCase]{
+		ID: "C04", Name: "deposit-slice", Quick: 400, Thor: 12_000,
+		Gen: func(t *rapid.T) DepositCase {
+			c := genDepositCase(t)
+			for i := range c.Blocks {
+				// single-transaction and small blocks, coinbase deposits that are not yet mature
+				if rapid.IntRange(0, 1).Draw(t, "coinbase") == 0 {
+					c.Blocks[i].Pos = 0
+					c.Blocks[i].NTx = rapid.SampledFrom([]int{1, 1, 2, 3, 4}).Draw(t, "ntx")
+				}
+			}
+			for i := range c.Steps {
+				if rapid.IntRange(0, 4).Draw(t, "plain") > 0 {
+					c.Steps[i].Mut = rapid.SampledFrom(posMuts).Draw(t, "posMut")
+				} else {
+					c.Steps[i].Mut = 0
+				}
+			}
+			return c
+		},
+		Run:  runDepositHandler,
+		Rule: "the deposit path that relies on the verification: model blocks (1-33 transactions, coinbase deposits below and above the maturity depth) with the claimed position and the proof mutated (neighbour, alias p+k*2^depth, random position, truncated/extended/permuted/bit-flipped proof, the same deposit under its mirror position) through the registered NewDeposits handler; oracle = deposit oracle of C03 (a coinbase presented under another position must be rejected)",
+	})
+}
